@@ -2,7 +2,8 @@
 
 Monitors: contracts on get_number, from_int_tuple, to_int_tuple, inverse, find_transvection, transvection and
 rand_SpF2, all evaluated with the integer reference arithmetic in vmon/ref/spf2.py (own Lambda matrix, int64).
-Workloads: complete tuple domains n=1,2 (quick) and n=3 (thorough, 16 shards), all ordered pairs of non-zero vectors
+Every contract snapshots its arguments (argument-mutation and aliasing checks).
+Workloads: histories on one object / one process (shard `histories`), complete tuple domains n=1,2 (quick) and n=3 (thorough, 16 shards), all ordered pairs of non-zero vectors
 n<=3 (quick) / n=4 (thorough), random tuples and reference-generated symplectic matrices up to n=10, corner tuples,
 rand_SpF2 / rand_Clifford_group as realistic producers, the repository's spf2 tests under the monitors (thorough).
 """
@@ -16,7 +17,7 @@ from vmon.ref import spf2 as rs
 RULE = ('tuple cases: (n, mixed-radix tuple t); every tuple of the complete domain is driven through '
         'from_int_tuple -> to_int_tuple -> inverse with the contracts on; the case digest is the IMAGE matrix (tag img-exh in '
         'the exh-*/n3-slice shards, img-rnd elsewhere, pair / pair-rnd for vector pairs), so the merged distinct count minus the '
-        'distinct_case_digests_this_shard of the pairs*, random and repo-tests shards (see extra) equals the number of distinct images of the '
+        'distinct_case_digests_this_shard of the pairs*, random, histories and repo-tests shards (see extra) equals the number of distinct images of the '
         'exhaustive domains: 6+720 in quick (plus the n=3 slices), 6+720+1451520 in thorough iff the map is injective across '
         'shards too; independently every shard asserts to_int_tuple(from_int_tuple(t))==t, which implies injectivity on the '
         'whole domain without cross-shard state, and within a shard the set of image bytes must have the size of the shard\'s '
@@ -24,7 +25,11 @@ RULE = ('tuple cases: (n, mixed-radix tuple t); every tuple of the complete doma
         'image set is compared with the brute-force list of all symplectic binary matrices). Every tuple case is '
         'non-trivial (a distinct group element). Pair cases: (v0,v1) ordered pairs of non-zero vectors, non-trivial when '
         'v0 != v1, distinct by digest of the pair. Random cases: tuples drawn uniformly per coordinate / products of random '
-        'transvections built by the reference, n<=10')
+        'transvections built by the reference, n<=10. History cases (shard histories, ONE process): every contract snapshots its '
+        'array/list arguments at call time, judges against the snapshot and reports <fn>/mutates-argument; the same matrix '
+        'object queried repeatedly, results edited in place by the caller and the call repeated, refilled work buffers '
+        '(matrix, vectors, tuple-list), get_number/from_int_tuple in descending-n order with a repeat at the end, '
+        'numpy-integer / list / ndarray tuple entries, Fortran / strided / transposed / negative-stride matrices and int64 copies')
 EXHAUSTIVE = {'quick': True, 'thorough': True}
 EXHAUSTIVE_DOMAINS = {
     'quick': ['all tuples n=1 (6), n=2 (720)', 'all 16 / 65536 binary matrices n=1,2 (brute-force group list)',
@@ -40,7 +45,8 @@ ASSUMPTIONS = ['symplectic form Lambda=[[0,I],[I,0]], matrices act on row vector
                'it are inadmissible and never generated']
 DECIDING = ['numqi.group.spf2.get_number', 'numqi.group.spf2.from_int_tuple', 'numqi.group.spf2.to_int_tuple',
             'numqi.group.spf2.inverse', 'numqi.group.spf2.find_transvection', 'numqi.group.spf2.transvection',
-            'numqi.random._spf2.rand_SpF2', 'workload/tuple-roundtrip', 'workload/image-count', 'workload/vector-pair']
+            'numqi.random._spf2.rand_SpF2', 'workload/tuple-roundtrip', 'workload/image-count', 'workload/vector-pair',
+            'workload/history']
 TECHNIQUE = ('contracts on the real spf2 functions (symplecticity, two-sided inverse, transvection value, tuple range, '
              'from(to(S))==S) + exhaustive tuple/vector-pair enumeration with injectivity/count checks against an own '
              'integer reference and a brute-force list of Sp(2,F2), Sp(4,F2)')
@@ -54,7 +60,7 @@ def shards(tier, seed):
     ret = []
     if tier == 'thorough':
         ret += [{'name': f'exh-n3-{i:02d}', 'part': i, 'nparts': NPARTS_N3, 'timeout_s': 3600} for i in range(NPARTS_N3)]
-    ret += [{'name': 'exh-n1n2'}, {'name': 'pairs'}, {'name': 'random'}]
+    ret += [{'name': 'exh-n1n2'}, {'name': 'pairs'}, {'name': 'random'}, {'name': 'histories'}]
     if tier == 'quick':
         ret += [{'name': f'n3-slice-{i}', 'slice': i, 'ncosets': 6} for i in range(4)]
     if tier == 'thorough':
@@ -67,9 +73,67 @@ def _tup(t):
     return [int(x) for x in t]
 
 
+class _ArrSnap:
+    """value snapshot of an ndarray at call time, kept as bytes (cheap for the small arrays of this module)"""
+    __slots__ = ('data', 'shape', 'dtype')
+
+    def __init__(self, a):
+        self.data = a.tobytes()
+        self.shape = a.shape
+        self.dtype = a.dtype
+
+    def same(self, cur):
+        return cur.__class__ is np.ndarray and cur.shape == self.shape and cur.dtype == self.dtype and cur.tobytes() == self.data
+
+    def array(self):
+        return np.frombuffer(self.data, dtype=self.dtype).reshape(self.shape).copy()
+
+
+def _snap(a):
+    """snapshot of an argument at call time (arrays as bytes, lists copied)"""
+    if isinstance(a, np.ndarray):
+        return _ArrSnap(a)
+    if isinstance(a, list):
+        return list(a)
+    return a
+
+
+def _unchanged(cur, snp):
+    if isinstance(snp, _ArrSnap):
+        return snp.same(cur)
+    if isinstance(snp, list):
+        return isinstance(cur, list) and len(cur) == len(snp) and all(type(a) is type(b) and a == b for a, b in zip(cur, snp))
+    return True
+
+
+def _at_call_time(cur, snp):
+    """the argument's contents at call time: the argument itself when it was not modified, else rebuilt from the snapshot"""
+    if isinstance(snp, _ArrSnap):
+        return cur if snp.same(cur) else snp.array()
+    if isinstance(snp, list):
+        return snp
+    return cur
+
+
 def install(ctx, numqi):
     sp = numqi.group.spf2
     state = {'to_depth': 0}
+
+    def args_unmodified(fn, c, pairs):
+        """(3) a monitored function must not modify its array / list arguments: pairs = [(name, current, snapshot)];
+        one monitor evaluation per call"""
+        bad = None
+        for nm, cur, snp in pairs:
+            if isinstance(snp, (_ArrSnap, list)) and not _unchanged(cur, snp):
+                bad = (nm, cur, snp)
+                break
+        if bad is None:
+            ctx.evaluations += 1
+            return True
+        else:
+            ctx.check(False, f'{fn}/mutates-argument', f'{fn} modified its argument {bad[0]} in place',
+                      {'argument': bad[0], 'before': bad[2].array() if isinstance(bad[2], _ArrSnap) else bad[2], 'after': bad[1]})
+            return False
 
     # ---------------- get_number
     def post_get_number(c):
@@ -92,8 +156,13 @@ def install(ctx, numqi):
     ctx.attach(sp, 'get_number', post=post_get_number)
 
     # ---------------- from_int_tuple
+    def pre_from(c):
+        return _snap(c.arg(0, 'int_tuple'))
+
     def post_from(c):
-        t = c.arg(0, 'int_tuple')
+        t_now = c.arg(0, 'int_tuple')
+        same = args_unmodified('from_int_tuple', c, [('int_tuple', t_now, c.snap)])
+        t = t_now if same else _at_call_time(t_now, c.snap)   # judged against the call-time contents
         try:
             n = len(t) // 2
             admissible = len(t) % 2 == 0 and n >= 1 and rs.in_range(tuple(t), n)
@@ -112,18 +181,21 @@ def install(ctx, numqi):
             ctx.check(rs.is_symplectic(S), 'from_int_tuple/not-symplectic', 'image does not preserve the symplectic form',
                       lambda: {'tuple': _tup(t), 'S': S})
 
-    ctx.attach(sp, 'from_int_tuple', post=post_from)
+    ctx.attach(sp, 'from_int_tuple', pre=pre_from, post=post_from)
 
     # ---------------- to_int_tuple
     def pre_to(c):
         d = state['to_depth']
         state['to_depth'] += 1
-        return d
+        return {'depth': d, 'mat': _snap(c.arg(0, 'mat'))}
 
     def post_to(c):
         state['to_depth'] -= 1
-        depth = c.snap if c.snap is not None else 0
-        mat = c.arg(0, 'mat')
+        depth = c.snap['depth'] if c.snap is not None else 0
+        mat_now = c.arg(0, 'mat')
+        snp = c.snap['mat'] if c.snap is not None else None
+        same = args_unmodified('to_int_tuple', c, [('mat', mat_now, snp)])
+        mat = mat_now if same else _at_call_time(mat_now, snp)   # judged against the call-time contents
         if not (isinstance(mat, np.ndarray) and mat.ndim == 2 and mat.shape[0] == mat.shape[1] and mat.shape[0] % 2 == 0
                 and mat.shape[0] >= 2 and rs.is_binary_matrix(mat, mat.shape[0] // 2) and rs.is_symplectic(mat)):
             # a nested call receiving a non-symplectic block means the outer reduction went wrong; the outer call's
@@ -146,10 +218,15 @@ def install(ctx, numqi):
     ctx.attach(sp, 'to_int_tuple', pre=pre_to, post=post_to)
 
     # ---------------- inverse
+    def pre_inverse(c):
+        return _snap(c.arg(0, 'mat'))
+
     def post_inverse(c):
+        mat_now = c.arg(0, 'mat')
+        same = args_unmodified('inverse', c, [('mat', mat_now, c.snap)])
+        mat = mat_now if same else _at_call_time(mat_now, c.snap)
         if c.exc is not None:
             return
-        mat = c.arg(0, 'mat')
         if not (isinstance(mat, np.ndarray) and mat.ndim == 2 and mat.shape[0] == mat.shape[1] and mat.shape[0] % 2 == 0
                 and mat.shape[0] >= 2 and rs.is_symplectic(mat)):
             ctx.hit('inverse/inadmissible-argument')
@@ -159,12 +236,21 @@ def install(ctx, numqi):
         ok = R.shape == mat.shape and bool(np.all((R == 0) | (R == 1)))
         ctx.check(ok and np.array_equal(rs.matmul2(mat, R), eye) and np.array_equal(rs.matmul2(R, mat), eye),
                   'inverse/not-two-sided', 'inverse(S) S = S inverse(S) = I fails for a symplectic S', lambda: {'S': mat, 'got': R})
+        if isinstance(c.result, np.ndarray) and isinstance(mat_now, np.ndarray):
+            ctx.check(not np.may_share_memory(c.result, mat_now), 'inverse/result-aliases-argument',
+                      'inverse returns memory of its argument (editing one edits the other)', {'shape': list(mat.shape)})
 
-    ctx.attach(sp, 'inverse', post=post_inverse)
+    ctx.attach(sp, 'inverse', pre=pre_inverse, post=post_inverse)
 
     # ---------------- find_transvection
+    def pre_find(c):
+        return (_snap(c.arg(0, 'v0')), _snap(c.arg(1, 'v1')))
+
     def post_find(c):
-        v0, v1 = c.arg(0, 'v0'), c.arg(1, 'v1')
+        v0_now, v1_now = c.arg(0, 'v0'), c.arg(1, 'v1')
+        s0, s1 = c.snap if c.snap is not None else (None, None)
+        same = args_unmodified('find_transvection', c, [('v0', v0_now, s0), ('v1', v1_now, s1)])
+        v0, v1 = (v0_now, v1_now) if same else (_at_call_time(v0_now, s0), _at_call_time(v1_now, s1))
         if not (isinstance(v0, np.ndarray) and isinstance(v1, np.ndarray) and v0.ndim == 1 and v0.shape == v1.shape
                 and v0.size % 2 == 0 and v0.size >= 2 and v0.any() and v1.any()
                 and bool(np.all((v0 == 0) | (v0 == 1))) and bool(np.all((v1 == 0) | (v1 == 1)))):
@@ -181,15 +267,27 @@ def install(ctx, numqi):
             ctx.check(np.array_equal(img, v1.astype(np.int64)), 'find_transvection/does-not-map',
                       'the two transvections returned do not map v0 to v1 (reference transvection)',
                       lambda: {'v0': v0, 'v1': v1, 'h0': H[0], 'h1': H[1], 'image': img})
+            ctx.check(H is not v0_now and H is not v1_now and H.base is None, 'find_transvection/result-aliases-argument',
+                      'find_transvection returns (a view of) another array instead of a fresh one', {'n': v0.size // 2})
 
-    ctx.attach(sp, 'find_transvection', post=post_find)
+    ctx.attach(sp, 'find_transvection', pre=pre_find, post=post_find)
 
     # ---------------- transvection
+    def pre_transvection(c):
+        return [_snap(a) for a in c.args] if c.args else None
+
     def post_transvection(c):
+        if not c.args or c.snap is None:
+            return
+        x_now = c.args[0]
+        same = args_unmodified('transvection', c, [('x' if i == 0 else f'h[{i - 1}]', a, b) for i, (a, b) in enumerate(zip(c.args, c.snap))])
+        if same:
+            x, hs = x_now, c.args[1:]
+        else:   # judged against the call-time contents
+            x = _at_call_time(x_now, c.snap[0])
+            hs = [_at_call_time(a, b) for a, b in zip(c.args[1:], c.snap[1:])]
         if c.exc is not None:
             return
-        x = c.args[0] if c.args else c.kwargs.get('x')
-        hs = c.args[1:]
         if not (isinstance(x, np.ndarray) and x.ndim in (1, 2) and x.dtype.kind in 'ui'
                 and all(isinstance(h, np.ndarray) and h.ndim == 1 and h.size == x.shape[-1] and h.dtype.kind in 'ui' for h in hs)
                 and x.shape[-1] % 2 == 0 and int(x.max(initial=0)) <= 1 and all(int(h.max(initial=0)) <= 1 for h in hs)):
@@ -200,8 +298,12 @@ def install(ctx, numqi):
         ctx.check(r.shape == ref.shape and np.array_equal(r, ref), 'transvection/value',
                   'transvection(x,*h) differs from x + <x,h> h applied successively (reference)',
                   lambda: {'x': x, 'h': [h for h in hs], 'got': r, 'expected': ref})
+        if len(hs) and isinstance(c.result, np.ndarray):
+            ctx.check(not any(c.result is a for a in c.args) and c.result.base is None,
+                      'transvection/result-aliases-argument', 'transvection(x,h,...) returns (a view of) another array instead of a fresh one',
+                      {'x_shape': list(x.shape), 'n_h': len(hs)})
 
-    ctx.attach(sp, 'transvection', post=post_transvection)
+    ctx.attach(sp, 'transvection', pre=pre_transvection, post=post_transvection)
 
     # ---------------- rand_SpF2
     def post_rand(c):
@@ -260,7 +362,7 @@ def run(ctx, shard):
             ctx.case(img_tag, n, S, nontrivial=True, sample={'n': n, 'tuple': list(t), 'S': S} if sample else None)
             if images is not None:
                 images.add(S.tobytes())
-            back = sp.to_int_tuple(S.copy())
+            back = sp.to_int_tuple(S)   # the same object is used again below (inverse): histories on one matrix
             ctx.check(isinstance(back, tuple) and tuple(int(x) for x in back) == t, 'roundtrip/to(from(t))!=t',
                       'to_int_tuple(from_int_tuple(t)) != t', lambda: {'n': n, 'tuple': list(t), 'back': repr(back)[:200], 'S': S},
                       point='workload/tuple-roundtrip')
@@ -481,12 +583,229 @@ def run(ctx, shard):
             if it % 10 == 0:
                 with ctx.guard('rand_Clifford_group'):
                     numqi.random.rand_Clifford_group(n, seed=seed)
+    elif name == 'histories':
+        _histories(ctx, numqi, sp, rng, tuple_case, pair_case)
     elif name == 'repo-tests':
         ctx.workload('repo-tests')
         _run_repo_tests(ctx, ['tests/tests_group/test_group_spf2.py'])
     ctx.extra['tuple_cases'] = worst['tuples']
     ctx.extra['pair_cases'] = worst['pairs']
     ctx.extra['distinct_case_digests_this_shard'] = len(ctx.case_digests)
+
+
+def _eq(a, b):
+    """deep equality of results (arrays by shape/dtype/value, tuples/lists elementwise)"""
+    if isinstance(a, np.ndarray) or isinstance(b, np.ndarray):
+        return isinstance(a, np.ndarray) and isinstance(b, np.ndarray) and a.shape == b.shape and a.dtype == b.dtype and np.array_equal(a, b)
+    if isinstance(a, (tuple, list)):
+        return type(a) is type(b) and len(a) == len(b) and all(_eq(x, y) for x, y in zip(a, b))
+    return type(a) is type(b) and a == b
+
+
+def _deepcopy(a):
+    if isinstance(a, np.ndarray):
+        return a.copy()
+    if isinstance(a, (tuple, list)):
+        return type(a)(_deepcopy(x) for x in a)
+    return a
+
+
+def _scribble(a):
+    """caller edits a returned object in place (every writeable array inside it): returns number of arrays edited"""
+    k = 0
+    if isinstance(a, np.ndarray):
+        if a.flags.writeable and a.size:
+            a[...] = 1 - a if a.dtype.kind in 'ui' else a + 1
+            k += 1
+    elif isinstance(a, (tuple, list)):
+        for x in a:
+            k += _scribble(x)
+    return k
+
+
+def _histories(ctx, numqi, sp, rng, tuple_case, pair_case):
+    """(1) histories on one object / one process, (2) call order, (3) argument mutation (by the contracts),
+    (4) integer types and memory layouts of in-domain inputs. Everything here runs in ONE process."""
+    quick = ctx.tier == 'quick'
+    R = 12 if quick else 60
+
+    def rtuple(n):
+        return tuple(int(rng.integers(0, b)) for b in rs.bases(n))
+
+    def call_twice(fn, make_call, desc):
+        """edit-the-result-then-call-again + result-aliases-earlier-call for one call with fixed arguments"""
+        ctx.set_case({'op': 'edit-result-then-call-again', 'fn': fn, **desc})
+        ctx.case('history', fn, desc)
+        with ctx.guard(f'history/{fn}'):
+            r1 = make_call()
+            snap = _deepcopy(r1)
+            _scribble(r1)
+            r2 = make_call()
+            ctx.check(_eq(r2, snap), f'{fn}/stale-after-result-edit',
+                      f'{fn}: after the caller edited the first result in place, the same call returns something else (cached mutable result)',
+                      lambda: {**desc, 'first': snap, 'second': r2}, point='workload/history')
+            keep = _deepcopy(r2)
+            return r2, keep
+        return None, None
+
+    # ---- (2) call order: descending n, kinds in another order than everywhere else, first thing in a fresh process
+    ctx.workload('corner')
+    first = {}
+    for n in list(range(10, 0, -1)) + [3, 10, 1]:
+        ctx.set_case({'op': 'get_number-order', 'n': n})
+        with ctx.guard('get_number'):
+            for kind in ('coset', 'order', 'base'):
+                r = sp.get_number(n, kind=kind)
+                if (n, kind) in first:
+                    ctx.check(_eq(r, first[(n, kind)]), 'get_number/differs-between-calls', 'get_number(n,kind) changed between two calls in one process',
+                              {'n': n, 'kind': kind}, point='workload/history')
+                first[(n, kind)] = r
+            ctx.check(sp.get_number(np.int64(n), kind='BASE') == first[(n, 'base')], 'get_number/int-type-dependent',
+                      'numpy-integer n / upper-case kind gives a different answer', {'n': n})
+    ctx.workload('random')
+    order_ns = [10, 7, 4, 3, 2, 1, 2, 3, 5, 10, 1]
+    memo = {}
+    for n in order_ns:
+        t = memo.setdefault(n, rtuple(n))
+        S = tuple_case(n, t)
+        if S is not None:
+            if ('S', n) in memo:
+                ctx.check(np.array_equal(S, memo[('S', n)]), 'from_int_tuple/differs-between-calls',
+                          'the same tuple gives a different matrix later in the same process', {'n': n, 'tuple': list(t)}, point='workload/history')
+            memo[('S', n)] = S.copy()
+
+    # ---- (1) one matrix object queried repeatedly; results kept while further calls are made
+    for it in range(R):
+        for n in (1, 2, 3, 5, 8):
+            t = rtuple(n) if it else tuple(b - 1 for b in rs.bases(n))
+            ctx.set_case({'op': 'same-object-again', 'n': n, 'tuple': list(t)})
+            ctx.case('history-same-object', n, t)
+            with ctx.guard('history/same-object'):
+                M = sp.from_int_tuple(t)
+                if not (isinstance(M, np.ndarray) and M.shape == (2 * n, 2 * n)):
+                    continue
+                M0 = M.copy()
+                t1 = sp.to_int_tuple(M)
+                Mi = sp.inverse(M)
+                Mi0 = np.array(Mi, copy=True)
+                t2 = sp.to_int_tuple(M)
+                H = sp.find_transvection(M[0], M[n])          # row views of the same object
+                H0 = np.array(H, copy=True)
+                sp.transvection(M[0], H[0], H[1])
+                sp.transvection(M, H[0], H[1])
+                M2 = sp.from_int_tuple(rtuple(n))              # another call while M, Mi, H are alive
+                sp.inverse(M2)
+                ctx.check(t1 == t and t2 == t, 'to_int_tuple/differs-between-calls', 'to_int_tuple on the same matrix object twice gives different tuples',
+                          lambda: {'tuple': list(t), 'first': repr(t1), 'second': repr(t2)}, point='workload/history')
+                ctx.check(np.array_equal(M, M0), 'history/matrix-changed-by-queries', 'the matrix object changed while it was only queried',
+                          lambda: {'tuple': list(t), 'before': M0, 'after': M}, point='workload/history')
+                ctx.check(np.array_equal(Mi, Mi0), 'inverse/result-aliases-earlier-call', 'an earlier inverse() result changed during later calls',
+                          {'n': n}, point='workload/history')
+                ctx.check(np.array_equal(H, H0), 'find_transvection/result-aliases-earlier-call', 'an earlier find_transvection result changed during later calls',
+                          {'n': n}, point='workload/history')
+
+    # ---- (1) edit-the-result-then-call-again for every function returning arrays
+    for it in range(R):
+        n = int(rng.integers(1, 9))
+        t = rtuple(n)
+        S = rs.rand_symplectic(rng, n)
+        v0 = rng.integers(0, 2, size=2 * n).astype(np.uint8)
+        v1 = rng.integers(0, 2, size=2 * n).astype(np.uint8)
+        v0[int(rng.integers(2 * n))] = 1
+        v1[int(rng.integers(2 * n))] = 1
+        h = rng.integers(0, 2, size=2 * n).astype(np.uint8)
+        seed = int(rng.integers(2**31))
+        call_twice('from_int_tuple', lambda: sp.from_int_tuple(t), {'n': n, 'tuple': list(t)})
+        call_twice('inverse', lambda: sp.inverse(S), {'n': n})
+        call_twice('find_transvection', lambda: sp.find_transvection(v0, v1), {'n': n})
+        call_twice('transvection', lambda: sp.transvection(v0, h, v1), {'n': n, 'x': '1d'})
+        call_twice('transvection', lambda: sp.transvection(S, h, v1), {'n': n, 'x': '2d'})
+        call_twice('rand_SpF2', lambda: numqi.random.rand_SpF2(n, return_kind='int_tuple-matrix', seed=seed), {'n': n, 'seed': seed})
+        call_twice('rand_SpF2', lambda: numqi.random.rand_SpF2(n, seed=seed), {'n': n, 'seed': seed, 'kind': 'matrix'})
+        call_twice('to_int_tuple', lambda: sp.to_int_tuple(S), {'n': n})
+        call_twice('get_number', lambda: sp.get_number(n, kind='base'), {'n': n})
+
+    # ---- (1) work buffers: the same array / list object refilled with new contents between calls
+    for n in (1, 2, 3, 6):
+        buf = np.zeros((2 * n, 2 * n), dtype=np.uint8)
+        vb0 = np.zeros(2 * n, dtype=np.uint8)
+        vb1 = np.zeros(2 * n, dtype=np.uint8)
+        lst = [0] * (2 * n)
+        for it in range(R):
+            t = rtuple(n)
+            ctx.set_case({'op': 'work-buffer', 'n': n, 'tuple': list(t)})
+            ctx.case('history-buffer', n, t)
+            with ctx.guard('history/work-buffer'):
+                lst[:] = list(t)
+                S = sp.from_int_tuple(lst)
+                ref = ctx.orig(sp.from_int_tuple)(tuple(t))
+                ctx.check(_eq(S, ref), 'from_int_tuple/stale-after-inplace-update', 'a refilled list object gives the matrix of its earlier contents',
+                          {'n': n, 'tuple': list(t)}, point='workload/history')
+                if not (isinstance(S, np.ndarray) and S.shape == buf.shape):
+                    continue
+                buf[...] = S
+                tb = sp.to_int_tuple(buf)
+                ctx.check(tb == t, 'to_int_tuple/stale-after-inplace-update', 'a refilled matrix buffer gives the tuple of its earlier contents',
+                          lambda: {'n': n, 'tuple': list(t), 'got': repr(tb)}, point='workload/history')
+                sp.inverse(buf)          # judged by the contract against the current contents
+                vb0[...] = S[int(rng.integers(2 * n))]
+                vb1[...] = S[int(rng.integers(2 * n))]
+                Hb = sp.find_transvection(vb0, vb1)
+                sp.transvection(vb0, Hb[0], Hb[1])
+                sp.transvection(buf, Hb[0], Hb[1])
+
+    # ---- (4) integer types of tuple entries, containers, memory layouts, dtypes
+    for it in range(R):
+        n = int(rng.integers(1, 9))
+        t = rtuple(n)
+        ctx.set_case({'op': 'int-types-and-layouts', 'n': n, 'tuple': list(t)})
+        ctx.case('history-layout', n, t)
+        with ctx.guard('history/layout'):
+            S = sp.from_int_tuple(t)
+            if not (isinstance(S, np.ndarray) and S.shape == (2 * n, 2 * n)):
+                continue
+            variants = {'tuple-of-np.int64': tuple(np.int64(x) for x in t), 'tuple-of-np.int32': tuple(np.int32(x) for x in t),
+                        'list': list(t), 'ndarray-int64': np.array(t, dtype=np.int64), 'mixed': tuple((np.int64(x) if i % 2 else x) for i, x in enumerate(t))}
+            for vn, v in variants.items():
+                Sv = sp.from_int_tuple(v)
+                ctx.check(_eq(Sv, S), 'from_int_tuple/int-type-dependent', 'numpy-integer / list / ndarray tuple entries give a different matrix than python ints',
+                          lambda: {'variant': vn, 'tuple': list(t)}, point='workload/history')
+            big = np.zeros((4 * n, 4 * n), dtype=np.uint8)
+            big[::2, ::2] = S
+            layouts = {'fortran': np.asfortranarray(S), 'strided-view': big[::2, ::2], 'transposed-view': np.ascontiguousarray(S.T).T,
+                       'negative-strides': np.ascontiguousarray(S[::-1, ::-1])[::-1, ::-1]}
+            h1 = rng.integers(0, 2, size=2 * n).astype(np.uint8)
+            h2 = rng.integers(0, 2, size=2 * n).astype(np.uint8)
+            hbig = np.zeros(4 * n, dtype=np.uint8)
+            hbig[::2] = h1
+            inv0 = sp.inverse(S)
+            tr0 = sp.transvection(S, h1, h2)
+            for ln, V in layouts.items():
+                ctx.check(sp.to_int_tuple(V) == t, 'to_int_tuple/layout-dependent', 'a non-C-contiguous copy/view of the same matrix gives another tuple',
+                          {'layout': ln, 'tuple': list(t)}, point='workload/history')
+                ctx.check(_eq(np.ascontiguousarray(sp.inverse(V)), inv0), 'inverse/layout-dependent', 'inverse depends on the memory layout of the matrix',
+                          {'layout': ln, 'n': n}, point='workload/history')
+                ctx.check(_eq(np.ascontiguousarray(sp.transvection(V, hbig[::2], h2)), tr0), 'transvection/layout-dependent',
+                          'transvection depends on the memory layout of x / h', {'layout': ln, 'n': n}, point='workload/history')
+            # wider integer dtype of the same values (accepted by inverse / transvection / find_transvection)
+            S64 = S.astype(np.int64)
+            ctx.check(np.array_equal(sp.inverse(S64), inv0), 'inverse/dtype-dependent', 'inverse of the int64 copy differs in value', {'n': n}, point='workload/history')
+            ctx.check(np.array_equal(sp.transvection(S64, h1.astype(np.int64), h2.astype(np.int64)), tr0), 'transvection/dtype-dependent',
+                      'transvection of int64 copies differs in value', {'n': n}, point='workload/history')
+            v0, v1 = S[0], S[n]
+            H = sp.find_transvection(v0, v1)
+            vb = np.zeros(4 * n, dtype=np.uint8)
+            vb[::2] = v0
+            Hv = sp.find_transvection(vb[::2], np.ascontiguousarray(v1[::-1])[::-1])
+            ctx.check(_eq(np.ascontiguousarray(Hv), H), 'find_transvection/layout-dependent', 'find_transvection depends on the memory layout of the vectors',
+                      {'n': n}, point='workload/history')
+
+    # ---- (2) repeat the first configurations at the end
+    for n in order_ns[:4]:
+        S = tuple_case(n, memo[n])
+        if S is not None and ('S', n) in memo:
+            ctx.check(np.array_equal(S, memo[('S', n)]), 'from_int_tuple/differs-between-calls',
+                      'the same tuple gives a different matrix at the end of the process', {'n': n, 'tuple': list(memo[n])}, point='workload/history')
 
 
 def _run_repo_tests(ctx, files):
